@@ -664,6 +664,91 @@ fn check_tape_e(tape: &[u8], gates: &Gates, stats: &mut Stats, counting: bool, s
     Ok(())
 }
 
+/// (g) name clashes: two declarations (every ordered pair of seven declaration forms) that share a
+/// name, in one file or in two, the second spelling in another letter case: every label of every
+/// diagnostic the analysis returns names one of the files, lies inside it and covers an occurrence
+/// of the shared name (the construct "duplicated name" diagnostics talk about).  Whether and with
+/// which code the set is rejected is C03's business.
+pub fn check_clash_labels(files: &[(String, String)], name: &str) -> Result<bool, (String, String)> {
+    let mut libs = vec![];
+    for (f, text) in files {
+        match crate::panicx::catch(|| parse_program(text, &FileId::from_string(f), &ParseOptions::default())) {
+            Ok(Ok(l)) => libs.push(l),
+            _ => return Ok(false),
+        }
+    }
+    let refs: Vec<&ironplc_dsl::common::Library> = libs.iter().collect();
+    let ds = match crate::panicx::catch(|| analyze(&refs)) {
+        Ok(Err(ds)) => ds,
+        _ => return Ok(false),
+    };
+    let mut judged = false;
+    for d in ds.iter().filter(|d| d.code != "P9999") {
+        for (which, l) in std::iter::once(("primary", &d.primary)).chain(d.secondary.iter().map(|l| ("secondary", l))) {
+            let fname = l.file_id.to_string();
+            let text = match files.iter().find(|(f, _)| *f == fname) {
+                Some((_, t)) => t,
+                None => return Err(("clash-label-file".into(), format!("{}: the {} label {:?} names the file {:?}, which is none of the files of the set", d.code, which, l.message, fname))),
+            };
+            let (s, e) = (l.location.start, l.location.end);
+            if s > e || e > text.len() || !text.is_char_boundary(s) || !text.is_char_boundary(e) {
+                return Err(("clash-label-range".into(), format!("{}: the {} label {}..{} is not a range of {:?} ({} bytes)", d.code, which, s, e, fname, text.len())));
+            }
+            if d.code == "P0019" || d.code == "P0020" {
+                if !text[s..e].eq_ignore_ascii_case(name) {
+                    return Err(("clash-label-text".into(), format!("{}: the {} label {}..{} of {:?} covers {:?}, the duplicated name is {:?}", d.code, which, s, e, fname, &text[s..e], name)));
+                }
+                judged = true;
+            }
+        }
+    }
+    Ok(judged)
+}
+
+fn clash_forms(name: &str, tag: &str) -> Vec<(&'static str, String)> {
+    vec![
+        ("enum", format!("TYPE\n{} : (v1_{t}, v2_{t});\nEND_TYPE\n", name, t = tag)),
+        ("struct", format!("TYPE\n{} : STRUCT\nm_{t} : INT;\nEND_STRUCT;\nEND_TYPE\n", name, t = tag)),
+        ("subrange", format!("TYPE\n{} : INT(1..5);\nEND_TYPE\n", name)),
+        ("array", format!("TYPE\n{} : ARRAY[1..2] OF INT;\nEND_TYPE\n", name)),
+        ("function", format!("FUNCTION {} : INT\nVAR_INPUT\nin_{t} : INT;\nEND_VAR\n{} := in_{t};\nEND_FUNCTION\n", name, name, t = tag)),
+        ("function_block", format!("FUNCTION_BLOCK {}\nVAR\nv_{t} : INT;\nEND_VAR\nv_{t} := 1;\nEND_FUNCTION_BLOCK\n", name, t = tag)),
+        ("program", format!("PROGRAM {}\nVAR\nv_{t} : INT;\nEND_VAR\nv_{t} := 1;\nEND_PROGRAM\n", name, t = tag)),
+    ]
+}
+
+fn clash_grid(rep: &mut Report) {
+    let mut o = crate::runner::Outcome { stats: Stats::default(), failures: vec![] };
+    let names = [("Motor", "Motor"), ("Motor", "MOTOR"), ("valve_1", "Valve_1"), ("X", "x")];
+    let heads = ["", "(* header ü *)\n\n", "\r\n  "];
+    for (ni, (n1, n2)) in names.iter().enumerate() {
+        let a = clash_forms(n1, "a");
+        let b = clash_forms(n2, "b");
+        for (ka, ta) in a.iter() {
+            for (kb, tb) in b.iter() {
+                for two_files in [false, true] {
+                    let head = heads[(ni + ka.len() + kb.len()) % heads.len()];
+                    let files: Vec<(String, String)> = if two_files {
+                        vec![("a_first.st".to_string(), format!("{}{}", head, ta)), ("b_second.st".to_string(), format!("{}{}", head, tb))]
+                    } else {
+                        vec![("one.st".to_string(), format!("{}{}\n{}", head, ta, tb))]
+                    };
+                    let key = format!("{:?}", files);
+                    let r = check_clash_labels(&files, n1);
+                    o.stats.case(true, hash_str(&key));
+                    o.stats.class(&format!("g.clash.{}", if two_files { "two-files" } else { "one-file" }));
+                    match r {
+                        Ok(true) => o.stats.class(&format!("g.clash.judged.{}+{}", ka, kb)),
+                        Ok(false) => o.stats.class("g.clash.not-judged(no P0019/P0020)"),
+                        Err((k, d)) => o.failures.push((Failure::new("clash-labels", &k, d, json!({"files": files, "name": n1})), vec![])),
+                    }
+                }
+            }
+        }
+    }
+    rep.add(o);
+}
+
 /// (f) positions beyond 65 535: a line number, a column, a byte offset or a token length that
 /// does not fit 16 bits is a position like any other (in-process tiling, the `file:L:C` of the
 /// command line, the range of the language server)
@@ -779,6 +864,7 @@ pub fn run(ctx: &Ctx) -> i32 {
         rep.add(o);
     }
     large_positions(&mut rep);
+    clash_grid(&mut rep);
     rep.replay_witnesses(&ctx.findings, &|w| witness(w, &Gates::all_on()));
     rep.extra.insert("gates_off".into(), json!(off));
     rep.assumptions = vec![
@@ -819,6 +905,10 @@ pub fn replay(ctx: &Ctx, v: &Value) -> i32 {
         "tokens-tile" => check_tiling(text).map_err(|(k, d)| format!("{}: {}", k, d)),
         "witness" => witness(&v["inputs"], &Gates::all_on()),
         "shown-error-position" => check_shown_error_position(text).map(|_| ()).map_err(|(k, d)| format!("{}: {}", k, d)),
+        "clash-labels" => {
+            let files: Vec<(String, String)> = v["inputs"]["files"].as_array().cloned().unwrap_or_default().iter().map(|p| (p[0].as_str().unwrap_or("").to_string(), p[1].as_str().unwrap_or("").to_string())).collect();
+            check_clash_labels(&files, v["inputs"]["name"].as_str().unwrap_or("")).map(|_| ()).map_err(|(k, d)| format!("{}: {}", k, d))
+        }
         _ => {
             let tape: Vec<u8> = v["tape"].as_array().map(|a| a.iter().map(|x| x.as_u64().unwrap_or(0) as u8).collect()).unwrap_or_default();
             let mut s = Stats::default();
